@@ -518,3 +518,391 @@ def sanitize_rules(ctx, rep, r1, r2, r3, r4):
         rep.need(r4, nrows, 6, "rows of the fold table")
         return
     rep.error(r4, "no boolean accumulator of the member loop determines the result of sanitize")
+
+
+# ==================================================================== C17
+def _helper_roles(ctx):
+    """step helper = the function reading getattr(<x>, <its parameter>); closure helper =
+    the function that loops `while` around calls of the step helper"""
+    r = ctx.roles
+    step = clos = None
+    for f in r.sched.methods.values():
+        for n in walk_local(f.node):
+            if isinstance(n, ast.Call) and dotted(n.func) == 'getattr' and len(n.args) >= 2 \
+                    and isinstance(n.args[1], ast.Name) and n.args[1].id in f.params:
+                step = (f, n.args[1].id)
+    if step is None:
+        return None, None
+    for f in r.sched.methods.values():
+        if f is step[0]:
+            continue
+        has_while = any(isinstance(n, ast.While) for n in walk_local(f.node))
+        calls = [n for n in walk_local(f.node) if isinstance(n, ast.Call) and isinstance(n.func, ast.Attribute)
+                 and n.func.attr == step[0].name]
+        if has_while and calls:
+            clos = f
+    return step, clos
+
+
+def _literal_attr(ctx, func, helpers):
+    """the string literal a public query passes as attribute name to a helper"""
+    out = set()
+    for n in walk_local(func.node):
+        if isinstance(n, ast.Call) and isinstance(n.func, ast.Attribute) and n.func.attr in helpers \
+                and n.args and isinstance(n.args[0], ast.Constant) and isinstance(n.args[0].value, str):
+            out.add((n.func.attr, n.args[0].value))
+    return out
+
+
+def queries(ctx, rep, r1, r2, r3, r4, r5, r6):
+    r = ctx.roles
+    p = ctx.prog
+    step, clos = _helper_roles(ctx)
+    if step is None or clos is None:
+        rep.error(r1, "neighbour helpers not recognised (a function reading getattr(x, <param>), and a "
+                      "function looping `while` around it)")
+        return
+    stepf, attparam = step
+    helpers = {stepf.name: 'step', clos.name: 'closure'}
+    rev = r.reverse_attr
+    table = {'predecessors': ('step', 'required'), 'successors': ('step', rev),
+             'predecessors_upstream': ('closure', 'required'), 'successors_downstream': ('closure', rev)}
+    # ---- R17.1 direction agreement
+    n = 0
+    for name, (kind, att) in table.items():
+        f = p.supplier(r.sched, name)
+        if f is None:
+            rep.error(r1, "public query %s not found" % name)
+            continue
+        lits = _literal_attr(ctx, f, helpers)
+        n += 1
+        ok = lits == {(h, att) for h, k in helpers.items() if k == kind}
+        rep.check(ok, r1, "%s uses the %s helper along `%s`" % (name, kind, att), f.qualname,
+                  "%s calls %s" % (name, sorted(lits)),
+                  "%s() follows the wrong relation (or only one step / the whole closure instead of the other)"
+                  % name)
+    rep.need(r1, n, 4, "direction queries")
+    # the closure helper forwards its attribute parameter unchanged to the step helper
+    cp = clos.params[1] if len(clos.params) > 1 else None
+    for c in [x for x in walk_local(clos.node) if isinstance(x, ast.Call) and isinstance(x.func, ast.Attribute)
+              and x.func.attr == stepf.name]:
+        ok = c.args and isinstance(c.args[0], ast.Name) and c.args[0].id == cp
+        rep.check(bool(ok), r1, "%s:%d closure follows the same relation as its step" % (clos.module.relpath, c.lineno),
+                  clos.qualname, "`%s`" % src(c), "the closure mixes two relations")
+    # ---- R17.2 freshness: reverse links rebuilt before they are read (unless opted out)
+    m = 0
+    for name in ('successors', 'successors_downstream', 'exit_jobs'):
+        f = p.supplier(r.sched, name)
+        if f is None:
+            continue
+        opt = [k for k in f.kwonly + f.params if 'backlink' in k or k.startswith('compute')]
+        dflt = f.defaults()
+        for k in opt:
+            d = dflt.get(k)
+            rep.check(isinstance(d, ast.Constant) and d.value is True, r2, "%s rebuilds by default" % name,
+                      f.qualname, "parameter %s of %s defaults to %s" % (k, name, src(d) if d is not None else None),
+                      "by default the query reads reverse links that may be stale after edits to the graph")
+        binds = {k: T.TRUE for k in opt}
+        an, ip, out = ctx.explore(f, model=GraphModel, bindings=binds, no_inline=(stepf.name, clos.name))
+        reads = [e for e in an.events('READREV') if e.fr.func is not r.relation_builder]
+        for e in reads:
+            m += 1
+            rep.check(e.data['built'], r2, "%s reverse links fresh when read in %s" % (e.where, name), f.qualname,
+                      "`%s` reads job.%s on a path where the reverse links were not rebuilt"
+                      % (src(stmt_of(e.node)), rev),
+                      "after an edit of the graph (requires(), bypass, keep_only...) the query answers from stale "
+                      "reverse links", trace(e.st))
+    rep.need(r2, m, 2, "reads of the reverse links in public queries")
+    # ---- R17.3 one step = union over all starts, members only
+    _step_shape(ctx, rep, r3, stepf, attparam)
+    # ---- R17.4 closure is the fixpoint of the step
+    _closure_shape(ctx, rep, r4, clos, stepf)
+    # ---- R17.5 yield conditions
+    f = p.supplier(r.sched, 'entry_jobs')
+    an, ip, out = ctx.explore(f, model=GraphModel)
+    ys = an.events('YIELD')
+    rep.need(r5, len(ys), 1, "yields of entry_jobs")
+    for y in ys:
+        v = y.data['val']
+        req = T.mk(('attr', v, 'required'))
+        conds = {k: b for k, b in y.st.facts.items() if T.contains(k, v) and k != MEMBERS}
+        ok = v[0] == 'elem' and v[1] == MEMBERS and conds == {req: False}
+        rep.check(ok, r5, "%s entry_jobs yields exactly the members without requirement" % y.where, f.qualname,
+                  "yield of %s under %s" % (T.show(v, 3), [(T.show(k, 3), b) for k, b in conds.items()]),
+                  "entry_jobs() misses an entry job or yields a job that has requirements", trace(y.st))
+    lp = [n for n in walk_local(f.node) if isinstance(n, ast.For)]
+    from ..flow import _may_stop_early
+    for l in lp:
+        rep.check(not _may_stop_early(l), r5, "%s:%d entry_jobs scans every member" % (f.module.relpath, l.lineno),
+                  f.qualname, "the member loop of entry_jobs can stop early", "entry_jobs() misses entry jobs")
+    f = p.supplier(r.sched, 'exit_jobs')
+    kws = [k for k in f.kwonly + f.params[1:]]
+    disc = [k for k in kws if 'forever' in k]
+    for dval in (True, False):
+        binds = {k: T.mk(('const', dval)) for k in disc}
+        binds.update({k: T.TRUE for k in kws if 'backlink' in k})
+        an, ip, out = ctx.explore(f, model=GraphModel, bindings=binds)
+        ys = an.events('YIELD')
+        rep.need(r5 + ":exit:%s" % dval, len(ys), 1, "yields of exit_jobs")
+        for y in ys:
+            v = y.data['val']
+            succ = T.mk(('attr', v, rev))
+            fv = T.mk(('attr', v, 'forever'))
+            conds = {k: b for k, b in y.st.facts.items() if T.contains(k, v) and k != MEMBERS}
+            want = {succ: False}
+            if dval:
+                want[fv] = False
+            ok = v[0] == 'elem' and v[1] == MEMBERS and conds == want
+            rep.check(ok, r5, "%s exit_jobs(discard_forever=%s) yields members nobody requires%s"
+                      % (y.where, dval, ", forever ones left out" if dval else ""), f.qualname,
+                      "yield of %s under %s" % (T.show(v, 3), [(T.show(k, 3), b) for k, b in conds.items()]),
+                      "exit_jobs() is not `members that no member requires` (forever ones left out unless asked)",
+                      trace(y.st))
+    if not disc:
+        rep.fail(r5, "exit_jobs has a discard_forever option", f.qualname, "no parameter about forever jobs",
+                 "forever jobs cannot be left out / kept on request")
+    # ---- R17.6 traversal siblings
+    _traversal(ctx, rep, r6)
+
+
+def _guards_of(node, stop):
+    """the If tests between `node` and the enclosing statement `stop`, with polarity;
+    plus `if c: continue` guards that precede it in the same block"""
+    out = []
+    n = node
+    while n is not None and n is not stop:
+        par = getattr(n, '_parent', None)
+        if isinstance(par, ast.If):
+            if n in par.body:
+                out.append((par.test, True))
+            elif n in par.orelse:
+                out.append((par.test, False))
+        if par is not None and hasattr(par, 'body') and isinstance(par.body, list) and n in par.body:
+            for prev in par.body[:par.body.index(n)]:
+                if isinstance(prev, ast.If) and prev.body and isinstance(prev.body[-1], (ast.Continue,)) \
+                        and not prev.orelse:
+                    out.append((prev.test, False))
+        n = par
+    return out
+
+
+def _step_shape(ctx, rep, rule, stepf, attparam):
+    from ..flow import _may_stop_early
+    fn = stepf.qualname
+    va = stepf.vararg
+    fors = [n for n in walk_local(stepf.node) if isinstance(n, ast.For)]
+    outer = [l for l in fors if isinstance(l.iter, ast.Name) and l.iter.id == va]
+    comp = [n for n in walk_local(stepf.node) if isinstance(n, (ast.SetComp, ast.ListComp))]
+    if not outer and not comp:
+        rep.error(rule, "%s: no loop over the start jobs recognised" % fn)
+        return
+    if outer:
+        o = outer[0]
+        rep.check(not _may_stop_early(o), rule, "%s union over all the starts" % fn, fn,
+                  "the loop over the start jobs can stop early (`break`/`return` inside)",
+                  "with several start jobs only the neighbours of the first are returned")
+        inner = [l for l in ast.walk(o) if isinstance(l, ast.For) and l is not o
+                 and isinstance(l.iter, ast.Call) and dotted(l.iter.func) == 'getattr']
+        if not inner:
+            rep.error(rule, "%s: no inner loop over getattr(start, attribute)" % fn)
+            return
+        i = inner[0]
+        ok = isinstance(i.iter.args[0], ast.Name) and isinstance(o.target, ast.Name) \
+            and i.iter.args[0].id == o.target.id and isinstance(i.iter.args[1], ast.Name) \
+            and i.iter.args[1].id == attparam
+        rep.check(ok, rule, "%s neighbours read from the start job along the requested relation" % fn, fn,
+                  "`%s`" % src(i.iter), "the step follows another relation than the one requested")
+        rep.check(not _may_stop_early(i), rule, "%s every neighbour considered" % fn, fn,
+                  "the loop over the neighbours can stop early", "some neighbours are missed")
+        tgt = i.target.id if isinstance(i.target, ast.Name) else None
+        adds = [c for c in ast.walk(i) if isinstance(c, ast.Call) and isinstance(c.func, ast.Attribute)
+                and c.func.attr == 'add' and c.args and isinstance(c.args[0], ast.Name) and c.args[0].id == tgt]
+        rep.check(bool(adds), rule, "%s neighbours collected" % fn, fn, "no `<result>.add(<neighbour>)`",
+                  "the step returns nothing")
+        member_filter = False
+        for a in adds:
+            res = a.func.value.id if isinstance(a.func.value, ast.Name) else None
+            for test, pol in _guards_of(a, i):
+                t = ast.unparse(test)
+                if isinstance(test, ast.Compare) and len(test.ops) == 1 and isinstance(test.left, ast.Name) \
+                        and test.left.id == tgt:
+                    right = ast.unparse(test.comparators[0])
+                    isin = isinstance(test.ops[0], ast.In) == pol if isinstance(test.ops[0], (ast.In, ast.NotIn)) else None
+                    if right == 'self.jobs' and isin is True:
+                        member_filter = True
+                        continue
+                    if right == res and isin is False:
+                        continue
+                rep.fail(rule, "%s:%d neighbour kept only under an extra condition" % (stepf.module.relpath, a.lineno),
+                         fn, "`%s` guarded by `%s` is %s" % (src(a), t, pol),
+                         "some direct neighbours that are members are not returned")
+        rep.check(member_filter, rule, "%s members only" % fn, fn,
+                  "neighbours are collected without testing membership in self.jobs",
+                  "jobs that are not members of this scheduler are returned")
+    else:
+        rep.ok(rule, "%s comprehension form" % fn)
+
+
+def _closure_shape(ctx, rep, rule, clos, stepf):
+    from ..flow import _may_stop_early
+    fn = clos.qualname
+    body = clos.node.body
+    whiles = [n for n in walk_local(clos.node) if isinstance(n, ast.While)]
+    if len(whiles) != 1:
+        rep.error(rule, "%s: expected one while loop, found %d" % (fn, len(whiles)))
+        return
+    w = whiles[0]
+    # seed: result = set(self.step(att, *starts))
+    seeds = [n for n in body if isinstance(n, ast.Assign) and n.lineno < w.lineno and len(n.targets) == 1
+             and isinstance(n.targets[0], ast.Name)]
+    res = None
+    for s_ in seeds:
+        calls = [c for c in ast.walk(s_.value) if isinstance(c, ast.Call) and isinstance(c.func, ast.Attribute)
+                 and c.func.attr == stepf.name]
+        if calls:
+            res = s_.targets[0].id
+            c = calls[0]
+            ok = len(c.args) >= 2 and isinstance(c.args[-1], ast.Starred) and isinstance(c.args[-1].value, ast.Name) \
+                and c.args[-1].value.id == clos.vararg
+            rep.check(ok, rule, "%s seeded with one step from all the starts" % fn, fn, "`%s`" % src(s_),
+                      "the closure does not start from the direct neighbours of every start job")
+    if res is None:
+        bad = [s_ for s_ in seeds if any(isinstance(n, ast.Name) and n.id == clos.vararg for n in ast.walk(s_.value))]
+        rep.fail(rule, "%s seeded with one step from all the starts" % fn, fn,
+                 "`%s`" % (src(bad[0]) if bad else "no seed built from the step helper"),
+                 "the closure contains the start jobs themselves (zero links) or misses the first step")
+        return
+    # exit only when a pass added nothing
+    cnts = [n.targets[0].id for n in w.body if isinstance(n, ast.Assign) and isinstance(n.targets[0], ast.Name)
+            and isinstance(n.value, ast.Constant) and n.value.value in (0, False)]
+    exits = [n for n in ast.walk(w) if isinstance(n, (ast.Break, ast.Return))]
+    rep.check(bool(cnts) and bool(exits), rule, "%s has a per-pass change counter and an exit" % fn, fn,
+              "counter reset per pass: %s, exits: %d" % (cnts, len(exits)),
+              "the closure loop never ends, or ends regardless of progress")
+    for x in exits:
+        par = getattr(x, '_parent', None)
+        ok = isinstance(par, ast.If) and par in w.body and (
+            (isinstance(par.test, ast.UnaryOp) and isinstance(par.test.op, ast.Not)
+             and isinstance(par.test.operand, ast.Name) and par.test.operand.id in cnts) or
+            (isinstance(par.test, ast.Compare) and isinstance(par.test.left, ast.Name) and par.test.left.id in cnts
+             and isinstance(par.test.ops[0], ast.Eq) and isinstance(par.test.comparators[0], ast.Constant)
+             and par.test.comparators[0].value == 0))
+        if ok:
+            # the test must come after the scanning loops of the pass
+            idx = w.body.index(par)
+            ok = any(isinstance(n, ast.For) for n in w.body[:idx])
+        rep.check(ok, rule, "%s:%d loop left only after a pass that added nothing" % (clos.module.relpath, x.lineno), fn,
+                  "`%s` under `%s`" % (src(x), src(par.test) if isinstance(par, ast.If) else 'no condition'),
+                  "the closure stops after a fixed number of passes: jobs further than that many links away "
+                  "are missed")
+    fors = [n for n in w.body if isinstance(n, ast.For)]
+    rep.check(bool(fors), rule, "%s scans the closure on each pass" % fn, fn, "no loop in the body of the while",
+              "nothing is ever added")
+    for o in fors:
+        it = ast.unparse(o.iter)
+        ok = it in ("%s.copy()" % res, "list(%s)" % res, "set(%s)" % res, "tuple(%s)" % res, "frozenset(%s)" % res)
+        rep.check(ok, rule, "%s each pass applies the step to every element found so far" % fn, fn,
+                  "pass iterates over `%s`" % it, "the step is not applied to every element of the closure")
+        rep.check(not _may_stop_early(o), rule, "%s pass runs to its end" % fn, fn,
+                  "the scanning loop can stop early", "elements are skipped")
+        inner = [l for l in ast.walk(o) if isinstance(l, ast.For) and l is not o]
+        for i in inner:
+            c = i.iter
+            ok = isinstance(c, ast.Call) and isinstance(c.func, ast.Attribute) and c.func.attr == stepf.name \
+                and len(c.args) == 2 and isinstance(c.args[1], ast.Name) and isinstance(o.target, ast.Name) \
+                and c.args[1].id == o.target.id
+            rep.check(ok, rule, "%s inner loop is one step from the current element" % fn, fn, "`%s`" % src(c),
+                      "the closure is not closed under the step")
+            tgt = i.target.id if isinstance(i.target, ast.Name) else None
+            adds = [a for a in ast.walk(i) if isinstance(a, ast.Call) and isinstance(a.func, ast.Attribute)
+                    and a.func.attr == 'add' and isinstance(a.func.value, ast.Name) and a.func.value.id == res]
+            rep.check(bool(adds), rule, "%s new elements are added" % fn, fn, "no `%s.add(...)`" % res,
+                      "the closure never grows")
+            for a in adds:
+                blk = getattr(a, '_parent', None)
+                blk = getattr(blk, '_parent', None)
+                sib = blk.body if hasattr(blk, 'body') else []
+                inc = any((isinstance(s_, ast.AugAssign) and isinstance(s_.target, ast.Name) and s_.target.id in cnts)
+                          or (isinstance(s_, ast.Assign) and isinstance(s_.targets[0], ast.Name)
+                              and s_.targets[0].id in cnts) for s_ in sib)
+                rep.check(inc, rule, "%s:%d every addition counts as progress" % (clos.module.relpath, a.lineno), fn,
+                          "`%s` without updating the change counter" % src(a),
+                          "the loop stops although the last pass found new jobs: the closure is incomplete")
+                for test, pol in _guards_of(a, i):
+                    okg = isinstance(test, ast.Compare) and isinstance(test.left, ast.Name) and test.left.id == tgt \
+                        and isinstance(test.ops[0], (ast.In, ast.NotIn)) \
+                        and ast.unparse(test.comparators[0]) == res \
+                        and (isinstance(test.ops[0], ast.NotIn) == pol)
+                    rep.check(okg, rule, "%s:%d addition guarded only by `not yet in the closure`"
+                              % (clos.module.relpath, a.lineno), fn, "`%s` is %s" % (src(test), pol),
+                              "some reachable jobs are left out of the closure")
+    rets = [n for n in walk_local(clos.node) if isinstance(n, ast.Return)]
+    rep.check(any(isinstance(x.value, ast.Name) and x.value.id == res for x in rets), rule,
+              "%s returns the closure" % fn, fn, "returns %s" % [src(x) for x in rets],
+              "the computed closure is not what is returned")
+
+
+def _traversal(ctx, rep, rule):
+    r = ctx.roles
+    p = ctx.prog
+    pub = p.supplier(r.sched, 'iterate_jobs')
+    if pub is None:
+        rep.error(rule, "iterate_jobs not found")
+        return
+    # the per-job hook: the method of the job base class that the public entry delegates to
+    hooks = {n.func.attr for n in walk_local(pub.node) if isinstance(n, ast.Call)
+             and isinstance(n.func, ast.Attribute) and n.func.attr in r.jobbase.methods
+             and isinstance(getattr(n, '_parent', None), ast.YieldFrom)}
+    rep.check(len(hooks) == 1, rule, "iterate_jobs delegates to the per-job traversal hook", pub.qualname,
+              "delegations found: %s" % sorted(hooks), "jobs of nested schedulers are not visited")
+    if len(hooks) != 1:
+        return
+    hook = hooks.pop()
+    impls = [(c, c.methods[hook]) for c in p.classes.values() if hook in c.methods]
+    for cls, f in impls:
+        an, ip, out = ctx.explore(f, model=GraphModel)
+        ys = an.events('YIELD')
+        container = r.sched in cls.mro
+        site = "%s.%s" % (cls.name, hook)
+        selfy = [y for y in ys if y.data['val'] == T.SELF]
+        dele = [y for y in ys if y.data['val'][0] == 'star']
+        if not container:
+            rep.check(len({id(y.node) for y in selfy}) == 1 and not dele and
+                      all(not [k for k in y.st.facts] for y in selfy), rule,
+                      "%s yields the job itself, once, unconditionally" % site, f.qualname,
+                      "yields: %s" % [(T.show(y.data['val'], 3), [(T.show(k, 2), v) for k, v in y.st.facts.items()])
+                                      for y in ys],
+                      "iterate_jobs() misses an atomic job or reports it twice")
+        else:
+            flag = f.params[1] if len(f.params) > 1 else None
+            okself = bool(selfy) and all(y.st.facts.get(T.mk(('var', flag))) is True for y in selfy)
+            rep.check(okself, rule, "%s yields the scheduler itself iff schedulers are requested" % site, f.qualname,
+                      "self yielded under %s" % [[(T.show(k, 2), v) for k, v in y.st.facts.items()] for y in selfy],
+                      "nested schedulers are (not) reported regardless of scan_schedulers")
+            okd = False
+            for y in dele:
+                g = y.data['val'][1]
+                if g[0] in ('gen', 'mcall') and (g[2] == hook if g[0] == 'mcall' else g[1].endswith('.' + hook)):
+                    recv = g[1] if g[0] == 'mcall' else dict(g[2]).get('self')
+                    if recv is not None and recv[0] == 'elem' and recv[1] == MEMBERS:
+                        conds = [k for k in y.st.facts if T.contains(k, recv) and k != MEMBERS]
+                        lp = [c for c in y.loops if c.elem == recv]
+                        if not conds and lp and not lp[0].conds:
+                            okd = True
+            rep.check(okd, rule, "%s delegates to every member's hook" % site, f.qualname,
+                      "delegations: %s" % [T.show(y.data['val'], 4) for y in dele],
+                      "jobs inside a nested scheduler are not all visited")
+    nest_impl = [c for c, f in impls if c in r.nestable or any(c in n.mro for n in r.nestable)]
+    rep.check(bool(nest_impl), rule, "the nestable class overrides the traversal hook", "class " +
+              ", ".join(c.name for c in r.nestable), "no override of %s in a nestable class" % hook,
+              "a nested scheduler is visited as if it were an atomic job: its jobs are never reached")
+    # the public entry: self iff requested, then every member's hook
+    an, ip, out = ctx.explore(pub, model=GraphModel)
+    ys = an.events('YIELD')
+    dele = [y for y in ys if y.data['val'][0] == 'star']
+    okd = any(y.data['val'][1][0] in ('mcall', 'gen') and not [k for k in y.st.facts
+                                                                if k[0] != 'var' and k != MEMBERS and not k == T.mk(('var', pub.params[1] if len(pub.params) > 1 else ''))]
+              for y in dele)
+    rep.check(okd, rule, "iterate_jobs visits every member", pub.qualname,
+              "delegations: %s" % [(T.show(y.data['val'], 3), [(T.show(k, 2), v) for k, v in y.st.facts.items()]) for y in dele],
+              "some members are not visited")
